@@ -110,18 +110,31 @@ macro_rules! shape_ops {
                 vec![$(($k, animated.contains(&stringify!($f)))),*]
             }
             fn build(cfg: &Cfg) -> Self::Tl {
+                // The builder calls come in an order derived from the configuration itself (one of the 6! orders of the five
+                // setters and the keyframe block; a setter is sometimes called twice, first with a junk value): the result
+                // of a builder chain must not depend on the order of its calls, nor on values that were overwritten.
+                let mut h: u64 = cfg.dur.map(|d| d.to_bits() as u64).unwrap_or(7) * 31 + cfg.delay.map(|d| d.to_bits() as u64).unwrap_or(3);
+                h = h.wrapping_mul(0x9E37_79B9_7F4A_7C15) ^ (cfg.kfs.len() as u64 * 977) ^ cfg.kfs.first().map(|k| k.pos.to_bits() as u64).unwrap_or(1);
+                h ^= h >> 29;
+                let mut order: Vec<usize> = (0..6).collect();
+                for i in (1..6).rev() { h = h.wrapping_mul(6364136223846793005).wrapping_add(1442695040888963407); order.swap(i, ((h >> 33) % (i as u64 + 1)) as usize); }
+                let twice = (h >> 7) % 3 == 0;
                 let mut b = <$anim>::timeline();
-                if let Some(d) = cfg.dur { b = b.duration_seconds(d); }
-                if let Some(d) = cfg.delay { b = b.delay_seconds(d); }
-                if let Some(r) = cfg.repeat { b = b.repeat(r); }
-                if let Some(r) = cfg.reverse { b = b.reverse(r); }
-                if let Some(e) = &cfg.easing { b = b.default_easing(e.clone()); }
-                for kf in &cfg.kfs {
-                    let mut k = <$anim>::keyframe(kf.pos);
-                    let mut _i = 0usize;
-                    $( if let Some(v) = kf.vals[_i] { k = k.$af(FromV::from_v(v)); } _i += 1; )*
-                    if let Some(e) = &kf.easing { k = k.easing(e.clone()); }
-                    b = b.keyframe(k);
+                for step in order {
+                    match step {
+                        0 => if let Some(d) = cfg.dur { if twice { b = b.duration_seconds(d * 3.0 + 1.0); } b = b.duration_seconds(d); },
+                        1 => if let Some(d) = cfg.delay { if twice { b = b.delay_seconds(d + 2.0); } b = b.delay_seconds(d); },
+                        2 => if let Some(r) = cfg.repeat { if twice { b = b.repeat(mina::Repeat::Times(5)); } b = b.repeat(r); },
+                        3 => if let Some(r) = cfg.reverse { if twice { b = b.reverse(!r); } b = b.reverse(r); },
+                        4 => if let Some(e) = &cfg.easing { b = b.default_easing(e.clone()); },
+                        _ => for kf in &cfg.kfs {
+                            let mut k = <$anim>::keyframe(kf.pos);
+                            let mut _i = 0usize;
+                            $( if let Some(v) = kf.vals[_i] { k = k.$af(FromV::from_v(v)); } _i += 1; )*
+                            if let Some(e) = &kf.easing { k = k.easing(e.clone()); }
+                            b = b.keyframe(k);
+                        },
+                    }
                 }
                 mina::TimelineBuilder::build(b)
             }
